@@ -117,3 +117,40 @@ Proof.
 Qed.
 
 End Timers.
+
+(* ------------------------------------------------------------------ several writers of one blob *)
+Lemma nth_set_nth_other : forall (ws : list writer) i j w, i <> j -> nth_error (set_nth i w ws) j = nth_error ws j.
+Proof.
+  induction ws as [|x r IH]; intros i j w Hne; [destruct i; reflexivity|].
+  destruct i, j; cbn; try reflexivity; [congruence|]. apply IH. congruence.
+Qed.
+Lemma nth_set_nth_same : forall (ws : list writer) i w x, nth_error ws i = Some x -> nth_error (set_nth i w ws) i = Some w.
+Proof.
+  induction ws as [|y r IH]; intros i w x Hn; [destruct i; discriminate|].
+  destruct i; cbn in *; [reflexivity|]. eapply IH; eassumption.
+Qed.
+
+(* a writer that ends WITHOUT verified bytes (corrupted, short, excess, cancelled, or simply still open) leaves every
+   other writer of the blob exactly as it was: a lying peer cannot disturb an honest transfer in progress *)
+Theorem failing_writer_leaves_others H hash len ws i data w j :
+  nth_error ws i = Some w ->
+  w_fin (fst (writer_write H hash len w data)) <> WResult -> i <> j ->
+  nth_error (blob_write H hash len ws i data) j = nth_error ws j.
+Proof.
+  intros Hn Hf Hne. unfold blob_write. rewrite Hn. unfold finished_callback.
+  rewrite (nth_set_nth_same ws i _ w Hn).
+  destruct (w_fin (fst (writer_write H hash len w data))) eqn:E; try congruence; apply nth_set_nth_other; exact Hne.
+Qed.
+
+(* and only bytes that hash to the blob hash and have the blob length ever make a writer close the others *)
+Theorem closing_writer_verified H hash L ws i data w :
+  nth_error ws i = Some w -> w_fin w = WPending -> w_closed w = false ->
+  w_fin (fst (writer_write H hash (Some L) w data)) = WResult ->
+  H (w_data w ++ data) = hash /\ zlen (w_data w ++ data) = L.
+Proof.
+  intros Hn Hp Hc. unfold writer_write. destruct (L =? 0); cbn; [congruence|]. rewrite Hc, Hp.
+  destruct (zlen (w_data w ++ data) >? L); cbn; [discriminate|].
+  destruct (zlen (w_data w ++ data) =? L) eqn:E; cbn; [|congruence].
+  destruct (bytes_eqb (H (w_data w ++ data)) hash) eqn:Eh; cbn; [|discriminate].
+  intros _. apply bytes_eqb_eq in Eh. split; [exact Eh|lia].
+Qed.
